@@ -1,6 +1,7 @@
 pub mod c01;
 pub mod c02;
 pub mod c03;
+pub mod c05;
 pub mod c06;
 pub mod c09;
 pub mod c10;
@@ -19,6 +20,7 @@ pub fn by_id(id: &str) -> Option<Box<dyn Prop>> {
         "C01" => Some(Box::new(c01::C01::default())),
         "C02" => Some(Box::new(c02::C02::default())),
         "C03" => Some(Box::new(c03::C03::default())),
+        "C05" => Some(Box::new(c05::C05::default())),
         "C06" => Some(Box::new(c06::C06::default())),
         "C09" => Some(Box::new(c09::C09::default())),
         "C10" => Some(Box::new(c10::C10::default())),
